@@ -70,7 +70,7 @@ def fill(code, contract):
     return re.sub(r'[ \t]*/\*@LOOP(\d+)@\*/\n', lp, code)
 
 
-def assemble(db, root, contracts, replace=(), harness='', includes=('avm_base.h',), spec_includes=(), model_text=None, extra_roots=()):
+def assemble(db, root, contracts, replace=(), harness='', includes=('avm_base.h',), spec_includes=(), model_text=None, extra_roots=(), ghosts=()):
     fns, globs, externs = closure(db, root, replace, extra_roots)
     F = db['functions']
     out = []
@@ -83,6 +83,8 @@ def assemble(db, root, contracts, replace=(), harness='', includes=('avm_base.h'
     out.append('/*@STRUCTS@*/')
     for inc in spec_includes:
         out.append('#include "%s"' % inc)
+    for gl in ghosts:      # ghost globals of the contract (visible to the clauses of replaced callees)
+        out.append(gl)
     dyn = []
     for g in globs:
         gi = db['globals'][g]
